@@ -51,6 +51,23 @@ def run(index, tier="quick", seed=0) -> Result:
                             f"(path {' -> '.join(e.path)}): angles outside [0, 2 pi) match no angular range")
         if not bad:
             res.ok("ANG-1", label, nontrivial=ncmp > 0, sample={"impl": label, "normalised_comparisons": ncmp})
+        # ---------------- RING-1  the cosine of a corner angle, arccos(u . v / (|a| |b|)) row by row over the vertex ring: the lengths
+        # belong to the vertices the dot product is built from.  Ring stencils (offsets k such that row i depends on vertex i + k,
+        # shifted by np.roll, united by row-wise arithmetic): stencil(denominator) must lie inside stencil(numerator).
+        for e in r["events"]:
+            if e.type != "arc" or e.f.get("fn") not in ("arccos", "arcsin") or e.f.get("arg") is None:
+                continue
+            qr = [t_ for t_ in e.arg.tags if isinstance(t_, tuple) and t_ and t_[0] == "quot-rings"]
+            if not qr:
+                continue
+            num, den = qr[0][1], qr[0][2]
+            k_ = f"{label}:corner-angle"
+            if den <= num:
+                res.ok("RING-1", k_, sample={"arccos": e.src()[:70], "numerator_offsets": sorted(num), "denominator_offsets": sorted(den)})
+            else:
+                res.bad("RING-1", k_ + ":foreign-lengths", e.where(), f"{label}: `{e.src()[:70]}` normalises a product of the edge vectors at the ring offsets "
+                        f"{sorted(num)} with lengths taken at the offsets {sorted(den)}: row i divides by the length of an edge that does not meet vertex i "
+                        "(a roll in the wrong direction); exact only when consecutive edge lengths repeat with period 2")
         # ---------------- FRAME-1
         deleg = [e for e in r["events"] if e.type == "enter" and not e.entry and e.callee.name == "distance_to_surface"
                  and e.selfobj is not None and e.selfobj.oid.startswith("new#")]
